@@ -1293,7 +1293,14 @@ class FortranReaderBase:
                 return self.handle_inline_comment(
                     newline, lineno, quotechar, buffer_comments_to_fifo
                 )
-            put_item(self.comment_item(commentline, lineno, lineno))
+            # Its an inline comment if there is a non whitespace
+            # character before the comment.
+            is_inline = bool("".join(noncomment_items).strip())
+            put_item(
+                self.comment_item(
+                    commentline, lineno, lineno, inline_comment=is_inline
+                )
+            )
             had_comment = True
         return "".join(noncomment_items), newquotechar, had_comment
 
